@@ -31,7 +31,7 @@ type Case struct {
 
 const mark = "\x01"
 
-var faults = []string{"zz-undefined", "(throw \"boom\")", "(nth [1] 9)", "(/ 1 0)", "(assert false)", "(throw {:code 7})", "(first 5)", "(zz-undefined-fn 1)", "(-> [1] (nth 9))", "(->> 9 (nth [1]))"}
+var faults = []string{"param-q", "zz-undefined", "(throw \"boom\")", "(nth [1] 9)", "(/ 1 0)", "(assert false)", "(throw {:code 7})", "(first 5)", "(zz-undefined-fn 1)", "(-> [1] (nth 9))", "(->> 9 (nth [1]))"}
 
 type wrapper struct {
 	name string
@@ -91,6 +91,10 @@ func genCase(t *rapid.T) Case {
 	}
 	c.Deferred = gen.Uniform(t, "deferred", 3) == 0
 	var forms []string
+	if c.Fault == "param-q" {
+		// the undefined name also occurs earlier in the text, legally, as a parameter
+		forms = append(forms, "(def uses-param (fn (param-q)\n  (+ param-q 1)))")
+	}
 	nf := gen.Uniform(t, "nfill", 5)
 	for i := 0; i < nf; i++ {
 		forms = append(forms, fmt.Sprintf(fillers[gen.Uniform(t, "filler", len(fillers))], i))
@@ -98,7 +102,10 @@ func genCase(t *rapid.T) Case {
 	faulty := expr
 	var later []string
 	if c.Deferred {
-		switch gen.Uniform(t, "defkind", 3) {
+		switch gen.Uniform(t, "defkind", 4) {
+		case 3: // the later call is the initialiser of a let binding
+			faulty = "(def later-fn (fn (p)\n  " + expr + "))"
+			later = append(later, "(let (r (later-fn 1)\n      s 2)\n  (list r s))")
 		case 0:
 			faulty = "(def later-fn (fn (p)\n  " + expr + "))"
 			later = append(later, "(later-fn 1)")
